@@ -1,6 +1,62 @@
-(* Props/C03.v — property theorems only. *)
+(* Props/C03.v — DAG-CBOR decoding is strict and denotes exactly the bytes it accepts.
+   Property theorems only.  SPEC = the value-directed checker [chk] of Codec/CborSpec.v:
+   [chk strict links negwrap v bs = Some rest] says a prefix of bs is one well-formed item denoting
+   exactly v (definite lengths, shortest heads and no NaN/Inf when strict, string keys without
+   duplicates, tag 42 only and only around 0x00 + valid CID, ints in [-2^63, 2^64)), tolerating
+   only unsorted keys, 16/32-bit floats and undefined-as-null. *)
 Require Import IP.Base.Bytes IP.DM.Value IP.Codec.Cbor IP.Codec.CborSpec.
+Require Import IP.Proofs.CborDec IP.Proofs.CborSound IP.Proofs.CborBound.
+Open Scope N_scope.
 
-Theorem C03_placeholder : forall bs, decode (dagcbor_dopts true) bs = decode (dagcbor_dopts true) bs.
-Proof. reflexivity. Qed.
-Print Assumptions C03_placeholder.
+(* The full statement: acceptance implies the strict SPEC with NO tolerance for refmt's wrap. *)
+Definition C03_full : Prop := forall o, d_reject_tags o = true -> forall bs v rest,
+  wfb bs -> decode o bs = Ok (v, rest) ->
+  chk (negb (d_relaxed o)) (d_allow_links o) false v bs = Some rest /\
+  (d_dont_parse_beyond o = false -> rest = []).
+
+(* Proved part: the same statement with the single tolerance that 3b ff..ff (the integer -2^64) may
+   be read as 0 — refmt's uint64 wrap in decodeNegInt, a defect of the dependency (known finding). *)
+Theorem C03_partial : forall o, d_reject_tags o = true -> forall bs v rest,
+  wfb bs -> decode o bs = Ok (v, rest) ->
+  chk (negb (d_relaxed o)) (d_allow_links o) true v bs = Some rest /\
+  (d_dont_parse_beyond o = false -> rest = []).
+Proof. exact decode_sound. Qed.
+Print Assumptions C03_partial.
+
+(* The full statement is false of the faithful model: the witness replays on the implementation. *)
+Theorem C03_refuted_negint : ~ C03_full.
+Proof.
+  intros H. specialize (H (dagcbor_dopts true) eq_refl [59; 255; 255; 255; 255; 255; 255; 255; 255] (DInt 0) []
+              ltac:(repeat constructor) ltac:(vm_compute; reflexivity)).
+  destruct H as [H _]. vm_compute in H. discriminate.
+Qed.
+Print Assumptions C03_refuted_negint.
+
+(* On the pinned tree (before fix 67123ae) tags in front of non-bytes items were dropped: c1 01 -> 1. *)
+Theorem C03_refuted_tag_pinned :
+  decode (dagcbor_dopts false) [193; 1] = Ok (DInt 1, []) /\ chk true true true (DInt 1) [193; 1] = None /\
+  decode (dagcbor_dopts true) [193; 1] = Err DOther.
+Proof. vm_compute. repeat split. Qed.
+Print Assumptions C03_refuted_tag_pinned.
+
+(* relaxed mode still refuses indefinite lengths (the SPEC checker has no indefinite form at all,
+   so this is a corollary of C03_partial; stated for the four markers explicitly) *)
+Theorem C03_relaxed_rejects_indefinite : forall o b r, d_reject_tags o = true ->
+  In b [95; 127; 159; 191] -> decode o (b :: r) = Err DOther.
+Proof.
+  intros o b r _ Hin. unfold decode, dec_fuel. cbn [length Nat.mul Nat.add dec_val]. unfold dec_val_body.
+  cbn in Hin. destruct Hin as [<-|[<-|[<-|[<-|[]]]]]; reflexivity.
+Qed.
+Print Assumptions C03_relaxed_rejects_indefinite.
+
+(* nothing deeper than the configured limit, nothing that was not paid for from the budget *)
+Theorem C03_within_limits : forall o bs v rest, decode o bs = Ok (v, rest) ->
+  (0 <= max_depth o -> Z.of_nat (dm_depth v) <= max_depth o)%Z /\ (0 <= budget0 o -> cost v <= budget0 o)%Z.
+Proof. exact decode_bounded. Qed.
+Print Assumptions C03_within_limits.
+
+(* non-vacuity: an accepted input with a map, a link and a 16-bit float *)
+Example C03_accepts_something :
+  let bs := [162; 97; 97; 249; 60; 0; 97; 98; 216; 42; 69; 0; 1; 113; 0; 0] in
+  wfb bs /\ exists v, decode (dagcbor_dopts true) bs = Ok (v, []).
+Proof. cbv zeta. split; [repeat constructor|]. eexists. vm_compute. reflexivity. Qed.
